@@ -318,7 +318,8 @@ PROPS = {
     rule='stress scenarios against one real shim agent behind yubiagent.ServeAgent in a race-detector-instrumented child process: 2..16 goroutines x 20..50 operations each (list, sign with caller-specific data, add / remove of a caller-owned key, add-hardware-certificate valid / expired, expired certificates injected into the underlying agent so that listings purge, raw forward and extension requests with caller-specific payloads; Signers / Extension / some Forward calls made in-process on the shared agent since the wire protocol does not reach them). '
          'Checked: no data race report, every reply carries the caller\'s own payload / verifies over the caller\'s own data, no operation hangs, final underlying identity set equals the sequential effect. Every scenario is non-trivial; distinct = distinct argument fields.'
          ' Plus two-operation linearizability rounds: 13 pairs of operations x both modes, each pair run concurrently on a fresh shim 60 (thorough: 600) times and compared with both sequential orders of the same implementation.'
-         ' Every sequence of four operations (incl. raw forwards of 511 / 512 bytes) on a fresh shim under a per-operation watchdog, both modes.',
+         ' Every sequence of four operations (incl. raw forwards of 511 / 512 bytes) on a fresh shim under a per-operation watchdog, both modes.'
+         ' In-flight pairs, both modes: each kind of operation (signing with an in-memory hardware certificate of every KeyID kind — free text, every YSSHCA certificate type —, signing with a key, list, signers, add, remove, remove-all, add-hardware-certificate, lock, unlock, extension, raw forward) is held in flight by an underlying agent that takes 120 ms over its request while a second caller sends a raw forward / extension / sign request; both must complete and each must get the reply to its own request (6 rounds per pair). The stress scenarios use the same KeyID kinds and also sign with the hardware certificates they added.',
     trusted_base=['Go race detector and scheduler (schedules are sampled, not enumerated)', 'the regenerated lock table is a syntactic summary of shimserver.go (first statement, defer, transitive field accesses) produced by /verif/extract'],
     assumptions=['Go memory model / scheduler are not modelled (partial): the theorem is about the locking discipline the source exhibits'],
  ),
